@@ -123,6 +123,8 @@ def oracle(ctx):
             # specifier, a git host) — is resolved against the unit directory
             r = rnd.choice([x for x in rels if not x.startswith(('/', '%'))] + ['src-cache/https://git.example.org/app', './m/git://host/x', 'a/http://b', 'vendor/github.com/x/y',
                                                                               'x/%h/y', 'httpd/ctx', 'git/repo', 'a/../https:/b'])
+        if kind in ('envfile', 'configmap') and rnd.random() < 0.4 and r and not any(c in r for c in ' \t"\'\\'):
+            kind += '2'
         cases.append((unitdir, r, kind))
     ops = []
     for unitdir, r, kind in cases:
@@ -132,6 +134,11 @@ def oracle(ctx):
             ops.append(('kube', f'[Kube]\nYaml=/k.yaml\nConfigMap={r}\n'))
         elif kind == 'envfile':
             ops.append(('container', f'[Container]\nImage=i\nEnvironmentFile={r}\n'))
+        elif kind in ('envfile2', 'configmap2'):
+            # several paths on one line (both keys are lists), and one more on a line of its own: each one is resolved
+            key = 'EnvironmentFile' if kind == 'envfile2' else 'ConfigMap'
+            ops.append(('container', f'[Container]\nImage=i\n{key}={r} second/../two.env\n{key}=./third.env\n') if kind == 'envfile2'
+                       else ('kube', f'[Kube]\nYaml=/k.yaml\n{key}={r} second/../two.env\n{key}=./third.env\n'))
         elif kind == 'volume':
             ops.append(('container', f'[Container]\nImage=i\nVolume={r}:/c\n'))
         elif kind == 'mount':
@@ -166,6 +173,12 @@ def oracle(ctx):
             fail = f'--configmap != {resolved!r}: {words}'
         elif kind == 'envfile' and not spec and ('--env-file' not in words or words[words.index('--env-file') + 1] != resolved):
             fail = f'--env-file != {resolved!r}: {words}'
+        elif kind in ('envfile2', 'configmap2') and not spec:
+            flag = '--env-file' if kind == 'envfile2' else '--configmap'
+            got = [words[i + 1] for i in range(len(words) - 1) if words[i] == flag]
+            wantl = [resolved, ref_clean_abs(unitdir + '/two.env'), ref_clean_abs(unitdir + '/third.env')]
+            if got != wantl:
+                fail = f'{flag} values {got} != {wantl}'
         elif kind == 'volume' and r.startswith('.') and ('-v' not in words or words[words.index('-v') + 1] != resolved + ':/c'):
             fail = f'-v != {resolved + ":/c"!r}: {words}'
         elif kind == 'mount' and r.startswith('.') and ('--mount' not in words or f'source={resolved}' not in words[words.index('--mount') + 1].split(',')):
